@@ -309,7 +309,7 @@ func init() {
 		Bubble: false,
 		Cases: func(tier string) int {
 			if tier == "thorough" {
-				return 60000
+				return 200000
 			}
 
 			return 3000
